@@ -347,15 +347,44 @@ def cbcheck_bounded(seed, n_it):
             Kcb[5, :] = 0.0; Kcb[:, 5] = 0.0
             refnode = 0
             bref = np.array([0, 1, 2, 3, 4, 6 + int(np.argmax(abs(np.cross([0, 0, 1.0], xyz[bn[1]] - xyz[bn[0]]))))])
+        # boundary grids with their own OUTPUT coordinate systems: grid 0 in a spherical system that has the grid on its polar axis (negative / positive side alternately),
+        # grid 1 in a cylindrical system; the boundary DOF of the reduced matrices are then expressed in these local frames (u_basic = E u_local per grid)
+        localcs = bool(it % 8 == 2) and not (drilling or massless or swapped)
+        csout = [0] * len(bn)
+        Eb = [np.eye(3) for _ in bn]
+        if localcs:
+            def _frame():
+                q_ = rng.randn(4); q_ /= np.linalg.norm(q_)
+                w_, x_, y_, z_ = q_
+                return np.array([[1 - 2 * (y_ * y_ + z_ * z_), 2 * (x_ * y_ - z_ * w_), 2 * (x_ * z_ + y_ * w_)], [2 * (x_ * y_ + z_ * w_), 1 - 2 * (x_ * x_ + z_ * z_), 2 * (y_ * z_ - x_ * w_)],
+                                 [2 * (x_ * z_ - y_ * w_), 2 * (y_ * z_ + x_ * w_), 1 - 2 * (x_ * x_ + y_ * y_)]])
+            Ts = _frame()
+            side = -1.0 if (it // 8) % 2 == 0 else 1.0
+            Os = xyz[bn[0]] - side * 1.7 * Ts[:, 2]                          # the grid sits at local (0, 0, side * 1.7): on the polar axis
+            csout[0] = np.vstack(([31, 3, 0], Os, Os + Ts[:, 2], Os + Ts[:, 0]))
+            # local directions e_R, e_theta, e_phi at azimuth 0 (the documented convention on the axis): theta = 180 deg -> (-z, -x, y); theta = 0 -> (z, x, y)
+            Eb[0] = np.column_stack((side * Ts[:, 2], side * Ts[:, 0], Ts[:, 1]))
+            Tc = _frame()
+            Oc = xyz[bn[1]] + rng.randn(3) + 2.0 * Tc[:, 0]
+            gl = Tc.T @ (xyz[bn[1]] - Oc)
+            thc = np.arctan2(gl[1], gl[0])
+            csout[1] = np.vstack(([32, 2, 0], Oc, Oc + Tc[:, 2], Oc + Tc[:, 0]))
+            Eb[1] = Tc @ np.array([[np.cos(thc), -np.sin(thc), 0], [np.sin(thc), np.cos(thc), 0], [0, 0, 1.0]])
+            Tfull = np.eye(Mcb.shape[0])
+            for k_ in range(len(bn)):
+                pos_ = bseto[6 * k_:6 * k_ + 6]
+                Tfull[np.ix_(pos_[:3], pos_[:3])] = Eb[k_]
+                Tfull[np.ix_(pos_[3:], pos_[3:])] = Eb[k_]
+            Mcb, Kcb = Tfull.T @ Mcb @ Tfull, Tfull.T @ Kcb @ Tfull
         uset = None
         for k_, i in enumerate(bn):
-            uset = n2p.addgrid(uset, 10 * (k_ + 1), "b", 0, xyz[i], 0)
+            uset = n2p.addgrid(uset, 10 * (k_ + 1), "b", 0, xyz[i], csout[k_])
         conv = [None, "m2e", (2.0, 3.0)][it % 3] if it >= 2 else None
         fobj = io.StringIO()
         with warnings.catch_warnings():
             warnings.simplefilter("ignore")
             try:
-                out = cb.cbcheck(fobj, Mcb, Kcb, bseto, bref, uset, uref=xyz[bn[refnode]], conv=conv, **(dict(reorder=False) if noreorder else {}), **(dict(rb_norm=True) if drilling else {}))
+                out = cb.cbcheck(fobj, Mcb, Kcb, bseto, bref, uset, uref=xyz[bn[refnode]], conv=conv, **(dict(reorder=False) if noreorder else {}), **(dict(rb_norm=True) if (drilling or localcs) else {}))          # (local output systems: rb_norm expresses the stiffness-/eigenvalue-based modes relative to uref in basic, as the geometry-based ones are)
             except Exception as ex:
                 tb = traceback.extract_tb(ex.__traceback__)
                 return ev, dict(what="cbcheck raises on a valid free Craig-Bampton model: %r at %s:%s" % (ex, tb[-1].filename, tb[-1].lineno), b_last=blast, ref_node=refnode, conv=str(conv), massless_boundary_grid=massless, reorder=not noreorder)
@@ -364,7 +393,8 @@ def cbcheck_bounded(seed, n_it):
         ref = xyz[bn[refnode]]
         # geometry: rigid motion about the reference point at the boundary grids (converted lengths)
         bn_out = bn[::-1] if swapped else bn
-        rbg_want = np.vstack([np.block([[np.eye(3), -skew((xyz[i] - ref) * lc)], [np.zeros((3, 3)), np.eye(3)]]) for i in bn_out])
+        Eo = Eb[::-1] if swapped else Eb
+        rbg_want = np.vstack([np.kron(np.eye(2), E_.T) @ np.block([[np.eye(3), -skew((xyz[i] - ref) * lc)], [np.zeros((3, 3)), np.eye(3)]]) for i, E_ in zip(bn_out, Eo)])
         # the structure's 6x6 rigid-body mass about the reference point, converted units
         RBfull = np.vstack([np.block([[np.eye(3), -skew(xyz[i] - ref)], [np.zeros((3, 3)), np.eye(3)]]) for i in range(nn)])
         M6 = RBfull.T @ M @ RBfull
@@ -403,7 +433,8 @@ def cbcheck_bounded(seed, n_it):
                     if prob is None and not np.allclose(np.sort(out.cb_frq), np.sort(frq_want), rtol=1e-6):
                         prob = "fixed-base frequencies changed (unit conversion / reordering must leave them unchanged)"
         if prob:
-            return ev, dict(what="cbcheck: " + prob, nodes=int(nn), b_last=blast, ref_node=refnode, conv=str(conv), kept_modes=int(nq), massless_boundary_grid=massless, reorder=not noreorder, unconnected_drilling_dof=drilling)
+            return ev, dict(what="cbcheck: " + prob, nodes=int(nn), b_last=blast, ref_node=refnode, conv=str(conv), kept_modes=int(nq), massless_boundary_grid=massless, reorder=not noreorder, unconnected_drilling_dof=drilling,
+                            boundary_grids_in_local_output_systems=localcs)
     return ev, None
 
 
